@@ -1283,7 +1283,7 @@ fn main() {
     if !bin.exists() || !vcore::shim_path().exists() {
         vcore::machinery_error(&format!("product binary {bin:?} or hash-seed shim missing (run ./check setup)"));
     }
-    let per_sig = tier.pick(1usize, 6);
+    let per_sig = tier.pick(1usize, 2);
     let mut seed_cases: Vec<usize> = vec![];
     let mut classes_covered: BTreeSet<String> = BTreeSet::new();
     match tier {
